@@ -6,7 +6,7 @@ import vlib
 
 HARNESS = ["aml/c11_harness_test.go", "aml/c11_random_test.go"]
 PKG = "device/acpi/aml"
-TRIGGERS = ["D1", "D1b", "D2", "D2c", "D3", "D5", "D7", "D8", "D9", "D10", "D11", "D12", "D13", "D14", "D15", "D16"]           # ids that have a trigger predicate in AmlNs.tla
+TRIGGERS = ["D1", "D1b", "D2", "D2c", "D3", "D5", "D6", "D7", "D8", "D9", "D10", "D11", "D12", "D13", "D14", "D15", "D16"]           # ids that have a trigger predicate in AmlNs.tla
 # findings without a trigger of their own: their constructs are excluded through these
 VIA = {"D4": ["D3"], "D6": ["D5", "D7"]}
 ASSUME = [
